@@ -50,6 +50,7 @@ fn range_int_case(ctx: &mut Ctx, a: i64, b: i64, step: i64) {
                 }
             },
             Ok(g) if g == want => {
+                ctx.sample(|| format!("{} as {ty} = {g:?} (the progression strictly before the end)", d()));
                 ctx.count("range_int_ok");
                 ctx.count(&format!("range_int_ok.{cls}"));
                 ctx.distinct(&format!("ri|{ty}|{}|{}|{}", want.len().min(12), step.signum(), cls));
